@@ -802,7 +802,9 @@ def make_ds_rdataset(
 
     res = []
     for algorithm in _algorithms:
-        res.extend(dnskey_rdataset_to_cds_rdataset(rrname, rdataset, algorithm, origin))
+        # DS records, as the name says (not CDS)
+        for dnskey in rdataset:
+            res.append(make_ds(rrname, dnskey, algorithm, origin))
     return dns.rdataset.from_rdata_list(rdataset.ttl, res)
 
 
